@@ -38,7 +38,9 @@ RULE = (
     "(b) placement: one function with 3-15 top-level statements: snax.alloc (constant size incl. exact-fill/over-fill of the memory, "
     "alignment from {1,8,64,256} mostly, also 3/10/14/0/absent, memory L1 or Test) followed by the unrealized cast memref-to-snax emits, "
     "views (memref.subview, snax.layout_cast, memref.memory_space_cast, memref->memref unrealized casts, chains), opaque test.op uses at "
-    "top level and nested in scf.for/scf.if (depth <= 3), memref-valued scf.if results, late uses through views, optionally returning a "
+    "top level and nested in scf.for/scf.if (depth <= 3), memref-valued scf.if results, values merged from two buffers of equal type "
+    "(arith.select / scf.if yielding buffer A or a view of it on one path and buffer B on the other; a ping-pong pattern a, b like a, "
+    "merge, c like a, late/nested uses of the merged value is spliced into 1 of 4 cases), late uses through views, optionally returning a "
     "buffer; memory descriptions (real L1/Test or generated start/capacity, also starts that are not multiples of the alignments) are "
     "registered on a private AccContext; modes static, minimalloc, auto; the allocated memref has no layout or a gapped tiled-strided "
     "layout with offset (size = bytes the layout needs); in 1 of 6 cases the allocs are written as memref.alloc and go through "
@@ -54,8 +56,8 @@ ASSUMPTIONS = [
     "layout reference: vlib.gen_tsl.addr / instantiate (README semantics; the layout offset counts elements, as memref-to-snax and "
     "snax-copy-to-dma both multiply it by the element size)",
     "liveness reference: a buffer is live from its snax.alloc to the last top-level statement in which an opaque op (or the return) "
-    "uses the buffer or any value derived from it by view ops / casts / memref-valued region results, at any nesting depth; creating a "
-    "view is not by itself an access",
+    "uses the buffer or any value derived from it by view ops / casts / memref-valued region results / arith.select, at any nesting "
+    "depth (a value merged from two buffers keeps BOTH alive); creating a view is not by itself an access",
     "arith ops emitted by memref-to-snax are executed by vlib/interp.py (index = 64 bit two's complement)",
 ]
 
@@ -588,6 +590,8 @@ def prop_place(r):
                     sig = "placement:minimalloc:live-buffers-overlap"
                 elif meet(i, j, views_p):
                     sig = "placement:minimalloc:live-buffers-overlap:last-use-through-view-after-last-direct-use"
+                elif any(k in built.access_merged[last_true[k]] for k in (i, j)):
+                    sig = "placement:minimalloc:live-buffers-overlap:last-use-through-value-merged-from-several-buffers"
                 else:
                     sig = "placement:minimalloc:live-buffers-overlap:last-use-through-region-result-after-last-direct-use"
                 problems.append((sig, dict(detail0, buffers=[j, i])))
@@ -620,6 +624,8 @@ def prop_place(r):
             if true_p[k] > direct_p[k]:
                 if views_p[k] >= true_p[k]:
                     sig += ":last-use-through-view-after-last-direct-use"
+                elif k in built.access_merged[last_true[k]]:
+                    sig += ":last-use-through-value-merged-from-several-buffers"
                 else:
                     sig += ":last-use-through-region-result-after-last-direct-use"
             problems.append((sig, dict(detail0, buffer=k, after=after())))
@@ -668,6 +674,14 @@ def prop_place(r):
             if prev_end is not None and a0 > prev_end:
                 cls.append("align:gap-between-neighbours")
             prev_end = max(prev_end or 0, a0 + sz)
+    # a buffer that is not the first-allocated source of a merged value, whose last use is through that value, after its last
+    # direct use, with another allocation of the same memory in between (the address is attractive for reuse)
+    for k in range(nb):
+        lt = last_true[k]
+        if (lt is not None and k in built.access_merged2[lt] and true_p[k] > direct_p[k]
+                and any(bufs[j]["mem"] == bufs[k]["mem"] and direct_p[k] < alloc_p[j] < true_p[k] for j in range(nb))):
+            cls.append("merge:second-source-live-across-later-alloc")
+            break
     last_via_view = any(last_true[k] is not None and k in built.access_view[last_true[k]] for k in range(nb))
     if last_via_view:
         cls.append("last-use:through-view")
